@@ -293,3 +293,75 @@ def gen_analyze(rnd, tier):
 
 
 TWINS = {'BlockParser._analyze_entry': gen_analyze, 'CppViewHelper.Param.parse': gen_param, 'DecoratorHelper._parse': gen_deco, 'BlockParser._skip_other_block': gen_skip, 'BlockParser.break_last_block': gen_last_block, 'BlockParser.break_separator': gen_break_sep}
+
+
+def _gen_nested(rnd, br, depth):
+	"""identifier, optionally followed by a group of kind br whose members are such terms, other-kind groups or simple strings"""
+	name = rnd.choice(['a', 'fn', 'T', 'x1'])
+	if depth <= 0 or rnd.random() < 0.25:
+		return name
+	members = []
+	for _ in range(rnd.randint(1, 3)):
+		k = rnd.random()
+		if k < 0.6:
+			members.append(_gen_nested(rnd, br, depth - 1))
+		elif k < 0.8:
+			o = rnd.choice([p for p in ['()', '[]', '{}', '<>'] if p != br])
+			members.append(f'{o[0]}{rnd.choice(["1", "q, r", ""])}{o[1]}')
+		else:
+			members.append(rnd.choice(['"s"', "'t, u'", '7']))
+	return f'{name}{br[0]}{", ".join(members)}{br[1]}'
+
+
+def parse_bracket_law(tier, seed):
+	"""Bounded: every block parse_bracket lists for a balanced fragment is itself a balanced group of the requested kind and stands in the fragment where such a
+	group stands; the first block is the fragment's first group."""
+	import os
+	import random
+	import sys
+	repo = os.environ.get('PYVC_REPO', '/repo')
+	if repo not in sys.path:
+		sys.path.insert(0, repo)
+	from rogw.tranp.view.helper.block import BlockParser
+	from specs.brackets import balanced
+	rnd = random.Random(18_000 + seed)
+	fails, n = [], 0
+	for _ in range(400 if tier == 'quick' else 6000):
+		br = rnd.choice(['()', '[]', '{}', '<>'])
+		text = _gen_nested(rnd, br, rnd.randint(1, 4))
+		if br[0] not in text:
+			continue
+		n += 1
+		try:
+			blocks = BlockParser.parse_bracket(text, br)
+		except Exception as e:  # noqa: BLE001
+			fails.append({'text': text, 'brackets': br, 'what': f'parse_bracket raised {type(e).__name__}: {str(e)[:80]}'})
+			continue
+		first = text[text.find(br[0]):]
+		depth, end = 0, None
+		for i, c in enumerate(first):
+			depth += (c == br[0]) - (c == br[1])
+			if depth == 0:
+				end = i + 1
+				break
+		bad = [b for b in blocks if not (b.startswith(br[0]) and b.endswith(br[1]) and balanced(b) and b in text)]
+		if bad:
+			fails.append({'text': text, 'brackets': br, 'blocks': blocks, 'what': f'parse_bracket({text!r}, {br!r}) lists {bad[0]!r}, which is not a balanced {br} group of the fragment'})
+		elif not blocks or blocks[0] != first[:end]:
+			fails.append({'text': text, 'brackets': br, 'blocks': blocks, 'what': f'the first block of parse_bracket({text!r}, {br!r}) is {blocks[:1]}, the first group of the fragment is {first[:end]!r}'})
+		if len(fails) >= 5:
+			break
+	return n, fails
+
+
+def extra_checks(tier, seed, active_known):
+	from pyvc.driver import Extra
+	n, fails = parse_bracket_law(tier, seed)
+	x = Extra(name='parse_bracket: every listed block is a balanced group of the requested kind standing in the fragment; the first block is the first group', kind='bounded', ok=not fails, cases=n,
+		bound='400 (quick) / 6000 (thorough) balanced fragments: identifiers followed by groups nested to depth 4, with other-kind groups and simple strings (containing delimiters) as members; four bracket kinds',
+		detail=f'{len(fails)} failing fragments', samples=[{'text': 'a(b(c(d)))', 'blocks': ['(b(c(d)))', '(c(d))', '(d)']}])
+	x.distinct = n
+	if fails:
+		x.violation = {'what': fails[0]['what'], 'function': 'rogw/tranp/view/helper/block.py:BlockParser._parse / parse_bracket', 'inputs': fails[0], 'clause': 'no piece is unbalanced'}
+		x.finding_key = 'parse-bracket-law'
+	return [x]
